@@ -9,6 +9,7 @@ VALIDATE spec/Trace_ContentLine evaluates round-trip and quoting clauses in TLC.
 """
 from vf.core import Ctx, cfg_text, main_wrapper, Machinery
 from vf import clcommon as cl
+from icalendar.parser import Parameters
 
 PALPHA = {97, 65, 44, 59, 58, 61, 39, 94, 32, 92, 37, 50, 67}
 
@@ -29,6 +30,21 @@ def run(ctx: Ctx):
         total += len(r.prints)
         for v in r.prints:
             cl.replay_vector(ctx, v, ev, meta, "C08")
+            # a one-element list / tuple is the same parameter value as its element (assumption below): same wire, same read-back
+            ps = v["c"]["ps"]
+            if fam == "scalar" and ps and all(len(p["vals"]) == 1 and not p["list"] for p in ps):
+                for seq in (list, tuple):
+                    P = Parameters()
+                    for p in ps:
+                        P[cl.S(p["k"])] = seq([cl.S(p["vals"][0])])
+                    ctx.evaluations += 1
+                    try:
+                        wire = P.to_ical().decode("utf-8")
+                    except Exception as e:   # noqa: BLE001
+                        wire = "EXC:" + type(e).__name__
+                    scalar_wire = cl.to_params(ps).to_ical().decode("utf-8")
+                    if wire != scalar_wire:
+                        ctx.fail("P:C08:one-element-list", {"c": v["c"], "as": seq.__name__, "impl_equal": False}, wire, scalar_wire)
         ctx.sample({"family": fam, "vector": {k2: r.prints[len(r.prints) // 2][k2] for k2 in ("c", "wireA", "okA", "okB", "quoteOK")}})
     if total < 1000:
         raise Machinery("too few vectors")
